@@ -438,6 +438,8 @@ class C11(vlib.Spec):
         "varArray_rt",
         "tagValues_rt",
         "tagValues_float_rt",
+        "engineTag_rt",
+        "engineTag_null_rt",
         "decoder_total_varint",
         "decoder_total_int64List",
         "decoder_total_blocks",
